@@ -6,6 +6,7 @@ import (
 
 	"github.com/tidwall/btree"
 	"github.com/tidwall/geojson"
+	"github.com/tidwall/geojson/geo"
 	"github.com/tidwall/geojson/geometry"
 	"github.com/tidwall/rtree"
 	"github.com/tidwall/tile38/internal/deadline"
@@ -396,6 +397,25 @@ func (c *Collection) ScanGreaterOrEqual(id string, desc bool,
 	return keepon
 }
 
+// searchRect returns the rectangle used to look up index candidates for an
+// area. For a circle this is not its Rect(): that is the box of the 64-sided
+// polygon drawn inside the circle, without pole or antimeridian handling, while
+// Within/Intersects test objects against the true disc, so objects near the
+// rim or across the antimeridian were never offered as candidates.
+func searchRect(obj geojson.Object) geometry.Rect {
+	rect := obj.Rect()
+	if circle, ok := obj.(*geojson.Circle); ok && circle.Meters() > 0 {
+		center := circle.Center()
+		minLat, minLon, maxLat, maxLon :=
+			geo.RectFromCenter(center.Y, center.X, circle.Meters())
+		rect.Min.X = math.Min(rect.Min.X, minLon)
+		rect.Min.Y = math.Min(rect.Min.Y, minLat)
+		rect.Max.X = math.Max(rect.Max.X, maxLon)
+		rect.Max.Y = math.Max(rect.Max.Y, maxLat)
+	}
+	return rect
+}
+
 func (c *Collection) geoSearch(
 	rect geometry.Rect,
 	iter func(o *object.Object) bool,
@@ -426,7 +446,7 @@ func (c *Collection) geoSparse(
 ) bool {
 	matches := make(map[string]bool)
 	alive := true
-	c.geoSparseInner(obj.Rect(), sparse, func(o *object.Object) (match, ok bool) {
+	c.geoSparseInner(searchRect(obj), sparse, func(o *object.Object) (match, ok bool) {
 		ok = true
 		if !matches[o.ID()] {
 			match, ok = iter(o)
@@ -510,7 +530,7 @@ func (c *Collection) Within(
 			return match, ok
 		})
 	}
-	return c.geoSearch(obj.Rect(), func(o *object.Object) bool {
+	return c.geoSearch(searchRect(obj), func(o *object.Object) bool {
 		count++
 		if count <= offset {
 			return true
@@ -551,7 +571,7 @@ func (c *Collection) Intersects(
 			return match, ok
 		})
 	}
-	return c.geoSearch(gobj.Rect(), func(o *object.Object) bool {
+	return c.geoSearch(searchRect(gobj), func(o *object.Object) bool {
 		count++
 		if count <= offset {
 			return true
